@@ -19,7 +19,14 @@
 //   - a result of type `error` (non-prefix mode) is translated to Bool: `nil` -> true, anything else -> false.
 //   - "table" items: package-level integer array/slice literals -> `def name : Array Int`.
 //   - "consts": package-level integer constants -> `def name : Int`.
-// No loops, no slices, no interfaces.
+//   - "loop" mode: the body of the N-th `for`/`range` statement of a function (pre-order, field "loop") is
+//     translated as a function of its free variables: the receiver (if its struct is listed), the function's
+//     scalar parameters, the scalars named in "params" (loop variables, outer locals), and one Int parameter
+//     per distinct array/slice element expression that the body reads or writes (a[i] -> a_i); the result is
+//     the tuple of the elements the body stores to, in order of first store. `continue`/`break`, nested
+//     loops and calls outside the translated set remain hard errors.
+//
+// No loops (other than the above), no slices, no interfaces.
 //
 // Semantics: Go int (64-bit) -> Lean Int (no wrap-around; see DESIGN 2.1); `/` -> Int.tdiv,
 // `%` -> Int.tmod, `>>` -> floor shift, `<<` -> multiplication by 2^k, `& | ^` -> Go.and/or/xor
@@ -32,6 +39,7 @@ import (
 	"fmt"
 	"go/ast"
 	"go/parser"
+	"go/printer"
 	"go/token"
 	"os"
 	"path/filepath"
@@ -40,9 +48,13 @@ import (
 )
 
 type FuncSpec struct {
-	Go   string `json:"go"`   // "Func" or "Type.Method"
-	Lean string `json:"lean"` // optional Lean name (default: same as Go)
-	Mode string `json:"mode"` // "" | "prefix"
+	Go     string   `json:"go"`     // "Func" or "Type.Method"
+	Lean   string   `json:"lean"`   // optional Lean name (default: same as Go)
+	Mode   string   `json:"mode"`   // "" | "prefix" | "loop"
+	Loop   int      `json:"loop"`   // loop mode: index of the for/range statement (pre-order)
+	Params []string `json:"params"` // loop mode: extra scalar parameters (Int)
+	Pre    bool     `json:"pre"`    // loop mode: the loop is a top-level statement; the statements before it
+	//                                  (array declarations excepted) are translated in front of the body
 }
 type Unit struct {
 	Out       string            `json:"out"`
@@ -68,14 +80,14 @@ type structInfo struct {
 type fieldInfo struct{ name, typ string } // typ: "Int" | "Bool" | struct name
 
 type gen struct {
-	fset    *token.FileSet
-	unit    *Unit
-	files   []*ast.File
-	structs map[string]*structInfo
-	funcs   map[string]*ast.FuncDecl // key "Name" or "Type.Name"
-	consts  map[string]ast.Expr
-	vars    map[string]ast.Expr // package-level var initialisers (tables)
-	want    map[string]FuncSpec
+	fset       *token.FileSet
+	unit       *Unit
+	files      []*ast.File
+	structs    map[string]*structInfo
+	funcs      map[string]*ast.FuncDecl // key "Name" or "Type.Name"
+	consts     map[string]ast.Expr
+	vars       map[string]ast.Expr // package-level var initialisers (tables)
+	want       map[string]FuncSpec
 	usedConsts map[string]bool
 }
 
@@ -91,6 +103,32 @@ type tr struct {
 	fn       string
 	nResults int      // number of results of the Go function
 	resTypes []string // per result: "Int" | "Bool" | struct | "Error" (non-prefix mode)
+	loop     bool     // loop mode: element expressions are variables
+	elems    []string // element variables in order of first occurrence
+	stored   []string // element variables stored to, in order of first store
+}
+
+// elemName flattens an element expression (a[i], d.data[0][i], out[i*2+1]) to an identifier.
+func (t *tr) elemName(e ast.Expr) string {
+	var sb strings.Builder
+	if err := printer.Fprint(&sb, t.g.fset, e); err != nil {
+		t.fail(e, "cannot print element expression")
+	}
+	out := []byte{}
+	for _, ch := range []byte(sb.String()) {
+		ok := ch == '_' || (ch >= '0' && ch <= '9') || (ch >= 'a' && ch <= 'z') || (ch >= 'A' && ch <= 'Z')
+		if ok {
+			out = append(out, ch)
+		} else if len(out) > 0 && out[len(out)-1] != '_' {
+			out = append(out, '_')
+		}
+	}
+	n := strings.TrimRight(string(out), "_")
+	if _, ok := t.env[n]; !ok {
+		t.env[n] = "Int"
+		t.elems = append(t.elems, n)
+	}
+	return n
 }
 
 type unsupported struct{ msg string }
@@ -211,6 +249,10 @@ func (t *tr) expr(e ast.Expr) string {
 		t.fail(e, "unknown identifier %s", x.Name)
 	case *ast.ParenExpr:
 		return "(" + t.expr(x.X) + ")"
+	case *ast.IndexExpr:
+		if t.loop {
+			return t.elemName(x)
+		}
 	case *ast.SelectorExpr:
 		if id, ok := x.X.(*ast.Ident); ok {
 			if _, isVar := t.env[id.Name]; !isVar {
@@ -381,6 +423,18 @@ func (t *tr) lhs(e ast.Expr) string {
 		if id, ok := x.X.(*ast.Ident); ok && id.Name == t.recv && t.ptrRecv {
 			_ = t.typeOf(e)
 			return t.recv + "." + x.Sel.Name
+		}
+	case *ast.IndexExpr:
+		if t.loop {
+			n := t.elemName(x)
+			seen := false
+			for _, s := range t.stored {
+				seen = seen || s == n
+			}
+			if !seen {
+				t.stored = append(t.stored, n)
+			}
+			return n
 		}
 	}
 	t.fail(e, "unsupported assignment target")
@@ -880,10 +934,142 @@ func writesRecv(fd *ast.FuncDecl, recv string) bool {
 	return w
 }
 
+// translateLoop: see "loop" mode in the header comment.
+func (g *gen) translateLoop(fs FuncSpec) string {
+	fd := g.funcs[fs.Go]
+	var body []ast.Stmt
+	var kv []string
+	n := 0
+	found := false
+	ast.Inspect(fd.Body, func(nd ast.Node) bool {
+		if found {
+			return false
+		}
+		switch x := nd.(type) {
+		case *ast.ForStmt:
+			if n == fs.Loop {
+				body, found = x.Body.List, true
+			}
+			n++
+		case *ast.RangeStmt:
+			if n == fs.Loop {
+				body, found = x.Body.List, true
+				for _, e := range []ast.Expr{x.Key, x.Value} {
+					if id, ok := e.(*ast.Ident); ok && id.Name != "_" {
+						kv = append(kv, id.Name)
+					}
+				}
+			}
+			n++
+		}
+		return true
+	})
+	if !found {
+		panic(unsupported{fmt.Sprintf("%s: loop %d not found", fs.Go, fs.Loop)})
+	}
+	if fs.Pre {
+		var pre []ast.Stmt
+		top := false
+		for _, st := range fd.Body.List {
+			var b *ast.BlockStmt
+			switch x := st.(type) {
+			case *ast.ForStmt:
+				b = x.Body
+			case *ast.RangeStmt:
+				b = x.Body
+			}
+			if b != nil && len(b.List) > 0 && len(body) > 0 && b.List[0] == body[0] {
+				top = true
+				break
+			}
+			if ds, ok := st.(*ast.DeclStmt); ok {
+				arr := false
+				for _, sp := range ds.Decl.(*ast.GenDecl).Specs {
+					if vs, ok := sp.(*ast.ValueSpec); ok {
+						if _, ok := vs.Type.(*ast.ArrayType); ok {
+							arr = true
+						}
+					}
+				}
+				if arr {
+					continue
+				}
+			}
+			pre = append(pre, st)
+		}
+		if !top {
+			panic(unsupported{fs.Go + ": pre requires a top-level loop"})
+		}
+		body = append(pre, body...)
+	}
+	run := func(fin string) (*tr, []string, string) {
+		t := &tr{g: g, env: map[string]string{}, extraSet: map[string]bool{}, fn: fs.Go + "#loop", loop: true}
+		params := []string{}
+		if fd.Recv != nil {
+			r := fd.Recv.List[0]
+			rt := ""
+			switch x := r.Type.(type) {
+			case *ast.StarExpr:
+				rt = x.X.(*ast.Ident).Name
+			case *ast.Ident:
+				rt = x.Name
+			}
+			if _, ok := g.structs[rt]; ok && len(r.Names) > 0 {
+				t.recv, t.recvType = r.Names[0].Name, rt
+				t.env[t.recv] = rt
+				params = append(params, "("+t.recv+" : "+rt+")")
+			}
+		}
+		for _, p := range fd.Type.Params.List {
+			ty := g.leanType(p.Type)
+			for _, nm := range p.Names {
+				if ty == "Int" || ty == "Bool" {
+					t.env[nm.Name] = ty
+					params = append(params, "("+nm.Name+" : "+ty+")")
+				}
+			}
+		}
+		for _, nm := range append(append([]string{}, fs.Params...), kv...) {
+			if _, dup := t.env[nm]; !dup {
+				t.env[nm] = "Int"
+				params = append(params, "("+nm+" : Int)")
+			}
+		}
+		for _, st := range body {
+			ast.Inspect(st, func(nd ast.Node) bool {
+				switch nd.(type) {
+				case *ast.BranchStmt, *ast.ForStmt, *ast.RangeStmt:
+					t.fail(nd, "continue/break/nested loop in a translated loop body")
+				}
+				return true
+			})
+		}
+		txt := t.block(body, fin, "  ")
+		return t, params, txt
+	}
+	t1, _, _ := run("()")
+	if len(t1.stored) == 0 {
+		panic(unsupported{fs.Go + ": loop body stores to no element"})
+	}
+	t2, params, txt := run(tupleOf(t1.stored))
+	for _, e := range t2.elems {
+		params = append(params, "("+e+" : Int)")
+	}
+	ts := make([]string, len(t1.stored))
+	for i := range ts {
+		ts[i] = "Int"
+	}
+	doc := fmt.Sprintf("/-- generated from the body of loop %d of %s (%s); result = stored elements %v -/\n", fs.Loop, fs.Go, g.fset.Position(fd.Pos()), t1.stored)
+	return doc + "def " + fs.Lean + " " + strings.Join(params, " ") + " : " + strings.Join(ts, " × ") + " :=\n" + txt
+}
+
 func (g *gen) translate(fs FuncSpec) string {
 	fd, ok := g.funcs[fs.Go]
 	if !ok {
 		panic(unsupported{fmt.Sprintf("%s: function %s not found in %s", g.unit.Out, fs.Go, g.unit.Dir)})
+	}
+	if fs.Mode == "loop" {
+		return g.translateLoop(fs)
 	}
 	t := &tr{g: g, env: map[string]string{}, prefix: fs.Mode == "prefix", extraSet: map[string]bool{}, fn: fs.Go}
 	params := []string{}
@@ -939,6 +1125,7 @@ func (g *gen) translate(fs FuncSpec) string {
 	}
 	ret := "Unit"
 	fin := "()"
+	namedInit := ""
 	if t.prefix {
 		ret, fin = "Bool", "true"
 	} else {
@@ -980,8 +1167,33 @@ func (g *gen) translate(fs FuncSpec) string {
 			// a function whose last statement is not a return: give the zero value
 			fin = "default"
 		}
+		// named results: zero-initialised at entry; a bare `return` yields their current values
+		if fd.Type.Results != nil {
+			named, all := []string{}, true
+			for _, r := range fd.Type.Results.List {
+				if len(r.Names) == 0 {
+					all = false
+				}
+				for _, n := range r.Names {
+					named = append(named, n.Name)
+					zero := "(0 : Int)"
+					if g.leanType(r.Type) == "Bool" {
+						zero = "false"
+					}
+					namedInit += "  let " + n.Name + " := " + zero + "\n"
+				}
+			}
+			if all && len(named) > 0 {
+				if t.ptrRecv {
+					named = append([]string{t.recv}, named...)
+				}
+				fin = tupleOf(named)
+			} else {
+				namedInit = ""
+			}
+		}
 	}
-	body := t.block(fd.Body.List, fin, "  ")
+	body := namedInit + t.block(fd.Body.List, fin, "  ")
 	doc := fmt.Sprintf("/-- generated from %s (%s) -/\n", g.fset.Position(fd.Pos()), fs.Go)
 	return doc + "def " + g.leanName(fs.Go) + " " + strings.Join(params, " ") + " : " + ret + " :=\n" + body
 }
@@ -1186,11 +1398,21 @@ func (g *gen) emit() string {
 		order = append(order, n)
 	}
 	for _, f := range g.unit.Funcs {
-		visit(f.Go)
+		if f.Mode != "loop" {
+			visit(f.Go)
+		}
 	}
 	fb := strings.Builder{}
 	for _, n := range order {
 		fb.WriteString(g.translate(g.want[n]) + "\n")
+	}
+	for _, f := range g.unit.Funcs {
+		if f.Mode == "loop" {
+			if _, ok := g.funcs[f.Go]; !ok || f.Lean == "" {
+				panic(unsupported{fmt.Sprintf("%s: loop spec %s needs an existing function and a lean name", g.unit.Out, f.Go)})
+			}
+			fb.WriteString(g.translateLoop(f) + "\n")
+		}
 	}
 	// constants: explicitly requested + referenced
 	for _, c := range g.unit.Consts {
@@ -1303,7 +1525,9 @@ func main() {
 			g := &gen{fset: token.NewFileSet(), unit: u, structs: map[string]*structInfo{}, funcs: map[string]*ast.FuncDecl{},
 				consts: map[string]ast.Expr{}, vars: map[string]ast.Expr{}, want: map[string]FuncSpec{}, usedConsts: map[string]bool{}}
 			for _, f := range u.Funcs {
-				g.want[f.Go] = f
+				if f.Mode != "loop" {
+					g.want[f.Go] = f
+				}
 			}
 			g.load(*repo)
 			txt := g.emit()
